@@ -45,8 +45,14 @@ pub fn grid(tier: Tier) -> Vec<Body> {
             g.push(Body { gen: gen.to_string(), a: order, b: 0 });
         }
     }
-    for m in 0..=12 {
-        for n in 0..=12 {
+    // every (m, n) with m + n <= 100 (quick) / 160 (thorough): runs longer than one 64-bit word of the
+    // bit matrix, ending on and off word boundaries
+    let lim = match tier {
+        Tier::Quick => 100,
+        Tier::Thorough => 160,
+    };
+    for m in 0..=lim {
+        for n in 0..=(lim - m) {
             g.push(Body { gen: "biclique".into(), a: m, b: n });
         }
     }
@@ -196,6 +202,9 @@ impl Lane for C14 {
         // distinct non-trivial cases of the sequential part: the grid cell itself
         if b.gen != "complete" && admissible(b) && closed_form(b).size() > 0 {
             st.case(&[vmodel::rng::digest(serde_json::to_string(b).unwrap().as_bytes())]);
+        }
+        if b.gen == "biclique" && (b.a > 64 || b.b > 64) {
+            st.bump("probe/biclique_part_longer_than_one_word");
         }
         if b.a > 64 || (b.gen == "biclique" && b.a + b.b > 8) {
             st.bump("probe/matrix_beyond_one_word");
